@@ -6,7 +6,8 @@ histories: the transition function is the real code, so histories are executed c
 the output of a FRESH process: identical text up to temporary renaming and comments, else an IL==IL solver query
 tells whether the difference is semantic.  (c) state-footprint step: after every single entry-point call from a clean
 instance the reflected persistent state equals the clean footprint (except an explicit whitelist), which is what makes
-the history bound meaningful.
+the history bound meaningful.  (d) long histories: ~100 (quick) / ~400 (thorough) programs of the mixed family, the pool and
+interleaved failing inputs compiled in 8 / 16 different orders, one process per order; per program all orders must agree.
 """
 import itertools
 import os
@@ -147,6 +148,32 @@ def _snap(v, depth=0):
     return type(v).__name__
 
 
+def _long_history(item):
+    """(d) one long history in its own process: every program of the list once, in the order given by the seed, on two instances
+    in turn; entry point fixed per program.  -> [(index, result)]"""
+    order_seed, progs = item
+    rng = random.Random(order_seed)
+    order = list(range(len(progs)))
+    rng.shuffle(order)
+    I = _instances()
+    out = []
+    for k, idx in enumerate(order):
+        out.append((idx, _do(I["AB"[rng.randrange(2)]], progs[idx], ENTRIES[idx % len(ENTRIES)])))
+    return out
+
+
+def long_history_programs(thorough):
+    """Pool for (d): the untargeted mixed family (+ calls) with the failing inputs of POOL spread between them."""
+    from .. import families
+    progs = families.mixed("quick", 360 if thorough else 90, salt=14)
+    progs += [p for p in POOL[:14]]
+    fails = POOL[14:]
+    rng = random.Random(framework.seed() + 1414)
+    for _ in range(len(progs) // 6):
+        progs.insert(rng.randrange(len(progs)), rng.choice(fails))
+    return progs
+
+
 def footprint(c):
     """Reflected persistent state of a Compiler and of the class-level mutables of the package."""
     from rzilcompiler.HexagonExtensions import HexagonTransformerExtension
@@ -248,6 +275,36 @@ def run(tier):
         rep.add(key, "violation", "code-semantic" if r.verdict != "equiv" else "code-text",
                 f"emitted code differs from the fresh-process code beyond temporary renaming; IL==IL query: {r.verdict} {r.detail[:120]}",
                 history=[list(h) for h in hist], probe=list(probe), fresh=ref[1], got=got[1])
+    # (d) long histories: the same programs in different orders (own process each) must give the same result per program
+    lprogs = long_history_programs(thorough)
+    norders = 16 if thorough else 8
+    runs = framework.pmap(_long_history, [(framework.seed() * 1000 + k, lprogs) for k in range(norders)], fresh=True)
+    per = {}
+    for run_ in runs:
+        for idx, got in run_:
+            per.setdefault(idx, []).append(got)
+    nlong_ok = 0
+    for idx, gots in sorted(per.items()):
+        key = f"long:{ENTRIES[idx % len(ENTRIES)]}:{lprogs[idx]}"
+        ref = gots[0]
+        bad = None
+        for k, got in enumerate(gots[1:], 1):
+            if got[0] != ref[0] or (got[0] == "exc" and got[1] != ref[1]):
+                bad = ("acceptance", f"order 0: {ref[0]} {ref[1] if ref[0] == 'exc' else ''} / order {k}: {got[0]} {got[1] if got[0] == 'exc' else ''}")
+            elif got[0] == "ok" and got[2] != ref[2]:
+                bad = ("attributes", f"order 0 {ref[2]} / order {k} {got[2]}")
+            elif got[0] == "ok" and normalise(got[1]) != normalise(ref[1]):
+                r = tv.check_il_pair(ref[1], got[1], il_subs, il_subs, optable(lprogs[idx], [d["code"] for d in subs.values()]), tv.Opts(unroll=9))
+                rep.count_query(r.verdict)
+                bad = ("code-semantic" if r.verdict != "equiv" else "code-text",
+                       f"emitted code depends on the order of earlier compilations (order 0 vs order {k}); IL==IL query: {r.verdict} {r.detail[:120]}")
+            if bad:
+                break
+        if bad:
+            rep.add(key, "violation", bad[0], bad[1], orders=norders)
+        else:
+            nlong_ok += 1
+            rep.add(key, "ok")
     # (c) footprint step
     nfp = 0
     for idx, entry, status, diff in framework.pmap(_footprint_step, [(i, e) for i in range(len(POOL)) for e in ENTRIES], chunksize=4):
@@ -264,7 +321,11 @@ def run(tier):
                     "of length 0 and 1, " + ("all ordered pairs of steps" if thorough else "400 seeded pairs") + " as histories of length 2 (each with " + ("7" if thorough else "4") + " seeded probes)" + (", 3000 seeded of length 3" if thorough else "")
                     + ", each followed by probes compared with a fresh process; footprint step over every (input, entry point)",
         pool=POOL, conditions_confirmed=nconf, footprint_steps_clean=nfp, histories_agreeing=nhist_ok,
-        bounds=dict(history_length="<= 2 (quick sample) / <= 3 (thorough)", instances=2, pool=len(POOL)))
+        long_histories=dict(programs=len(lprogs), orders=norders, programs_agreeing=nlong_ok,
+                            explanation="(d) every program of the mixed family + the pool + interleaved failing inputs compiled once per process in "
+                                        f"{norders} different seeded orders (two instances in turn, entry point fixed per program): status, attributes and "
+                                        "code (up to temporary renaming, else IL==IL query) must agree between all orders"),
+        bounds=dict(history_length="<= 2 (quick sample) / <= 3 (thorough); long histories: one per order, length = number of programs", instances=2, pool=len(POOL)))
     rep.samples = [dict(history=[f"{e}@{i}:{POOL[x]}" for x, e, i in h], probe=f"{p[1]}@{p[2]}:{POOL[p[0]]}", result=g[0])
                    for h, p, g in results[::max(1, len(results) // 8)]][:10]
     rep.assumptions = ["whitelisted persistent state: temporary counter (hybrid_op_count), missing_fcns statistics, compiled_insns registry, "
